@@ -143,6 +143,8 @@ pub struct TraceState {
     pub conn_client: HashMap<(usize, u64), usize>,
     /// when set, stream payload bytes are not compared with the PRF (evil-peer mode)
     pub no_payload_check: bool,
+    /// (time, client, new address)
+    pub rebinds: Vec<(u64, usize, SocketAddr)>,
 }
 
 pub type Trace = Arc<Mutex<TraceState>>;
